@@ -348,6 +348,11 @@ func (e *Evaluator) evalAssignment(assignment *parser.AssignmentStmt) error {
 	}
 	switch n := assignment.Target.(type) {
 	case *parser.Var:
+		if _, ok := e.scope.get(n.Name); !ok {
+			// A function that assigns to a global variable can be called
+			// before the declaration of that variable has been evaluated.
+			return newErr(n, fmt.Errorf("%w: %s", ErrVarNotSet, n.Name))
+		}
 		e.scope.update(n.Name, val)
 		return nil
 	case *parser.IndexExpression:
